@@ -657,3 +657,108 @@ Section Concrete.
   Theorem ev_good_b_sound s : ev_good_b s = true -> ev_Good s.
   Proof. apply good_b_sound. intros a b H. now apply ev_num_eqb_eq. Qed.
 End Concrete.
+
+(* C07 skeleton invariant at the executable carrier: the only hypotheses left are
+   the well-formedness of the declared types and the domain-preservation of the
+   producers the algorithm uses *)
+Section ConcreteD.
+  Variable types : list ev_ty.
+  Variable tab : list ev_call.
+  Variable cs : list ev_cdecl.
+  Hypothesis types_wf : Forall ev_wf_ty types.
+  Variable Op : list ev_sol -> ev_sol -> Prop.
+  Definition ev_EncOK (s : ev_sol) : Prop := Forall2 ev_dom_enc types (vars s).
+  Hypothesis Op_dom : forall ps c, Forall ev_EncOK ps -> Op ps c -> ev_EncOK c.
+
+  Theorem ev_calls_in_domain ev sts pool :
+    ev_spec ev_val ev_num ev_ty ev_decode ev_encode (ev_lookup tab) (ev_cfuns cs) ev_abs ev_add ev_zero ev_iszero types ev ->
+    Forall ev_EncOK pool ->
+    stepsD_ok ev_val ev_num Op ev pool sts ->
+    Forall (Forall2 ev_dom_dec types) (all_calls ev_val ev_num ev_ty ev_decode types sts).
+  Proof.
+    intros S HP H.
+    refine (calls_in_domain ev_val ev_num ev_ty ev_decode ev_encode (ev_lookup tab) (ev_cfuns cs)
+                            ev_abs ev_add ev_zero ev_iszero types ev_dom_enc ev_dom_dec Op _ _ Op_dom ev S sts pool HP H).
+    - intros t v I. apply decode_in_domain. rewrite Forall_forall in types_wf. now apply types_wf.
+    - intros t v _. apply encode_in_domain.
+  Qed.
+End ConcreteD.
+
+(* ------------------------------------------------------------------------- *)
+(* Non-vacuity: concrete instances on which the hypotheses hold              *)
+(* ------------------------------------------------------------------------- *)
+Module Examples.
+  (* one Integer(0,5) variable (3 bits), user function f(2) = 2.0, f(3) = 3.0 *)
+  Definition tys := [TInteger 0 5 3%nat].
+  Definition tab : list ev_call := [([VInt 2], ([NFin 1 1], [])); ([VInt 3], ([NFin 3 0], []))].
+  (* Gray word 100 = binary 111 = 7 > 5, wraps to 2: evaluation canonicalises the bits to 011 *)
+  Definition s0  : ev_sol := mkSol 0%nat [VBits [true; false; false]] [] [] ev_zero false false.
+  Definition s0' : ev_sol := mkSol 0%nat [VBits [false; true; true]] [NFin 1 1] [] ev_zero true true.
+  (* an untouched copy (flag still set) and a mutated copy (flag cleared, objectives stale) *)
+  Definition c1  : ev_sol := mkSol 1%nat [VBits [false; true; true]] [NFin 1 1] [] ev_zero true true.
+  Definition d2  : ev_sol := mkSol 2%nat [VBits [false; true; false]] [NFin 1 1] [] ev_zero true false.
+  Definition d2' : ev_sol := mkSol 2%nat [VBits [false; true; false]] [NFin 3 0] [] ev_zero true true.
+  Definition tr : trace ev_val ev_num :=
+    mkTrace [] [mkStep [mkBatch [s0] [None] [s0']] [s0'];
+                mkStep [mkBatch [c1; d2] [Some 0%nat; Some 0%nat] [c1; d2']] [s0'; c1; d2']].
+
+  Example tys_wf : Forall ev_wf_ty tys.
+  Proof. repeat constructor; simpl; lia. Qed.
+
+  Example tr_accepted : ev_accepts tys tab [] tr = true.
+  Proof. vm_compute. reflexivity. Qed.
+
+  (* the theorem applies and gives Good at both boundaries *)
+  Example tr_all_good : Forall (fun st => Forall (ev_Good tys tab []) (s_exposed st)) (t_steps tr).
+  Proof. apply (ev_accepts_good tys tab [] tys_wf tr); vm_compute; reflexivity. Qed.
+
+  (* a variator that forgets `evaluated = False`: the mutated copy keeps its flag -> rejected *)
+  Definition d2bad : ev_sol := mkSol 2%nat [VBits [false; true; false]] [NFin 1 1] [] ev_zero true true.
+  Definition tr_bad : trace ev_val ev_num :=
+    mkTrace [] [mkStep [mkBatch [s0] [None] [s0']] [s0'];
+                mkStep [mkBatch [c1; d2bad] [Some 0%nat; Some 0%nat] [c1; d2bad]] [s0'; c1; d2bad]].
+  Example tr_bad_rejected : ev_accepts tys tab [] tr_bad = false.
+  Proof. vm_compute. reflexivity. Qed.
+  Example d2bad_not_good : ev_good_b tys tab [] d2bad = false.
+  Proof. vm_compute. reflexivity. Qed.
+
+  (* evaluate_all on a mixed batch: a copying evaluator gives the same result *)
+  Example eval_copying :
+    evaluate_all ev_val ev_num
+      (ev_marked ev_val ev_num ev_ty ev_decode ev_encode (ev_lookup tab) [] ev_abs ev_add ev_zero ev_iszero tys [Some 7%nat]) [c1; d2]
+    = [c1; d2'].
+  Proof. vm_compute. reflexivity. Qed.
+
+  (* C07 *)
+  Example pso_above : pso_clamp (NFin 0 0) (NFin 1 0) (NFin 3 (-1)) (NFin 1 (-1)) = (NFin 1 0, NFin (-1) (-1)).
+  Proof. vm_compute. reflexivity. Qed.
+  Example pso_hyp_sat : ev_leb (NFin 0 0) (NFin 1 0) = true /\ ev_isnan (NFin 3 (-1)) = false.
+  Proof. split; reflexivity. Qed.
+  Example cma_second_try :
+    cma_sample 5 [TReal (NFin 0 0) (NFin 1 0); TReal (NFin (-1) 0) (NFin 1 0)]
+               [[NFin 1 (-1); NFin 3 0]; [NFin 1 (-2); NFin (-1) 0]] = Some [VNum (NFin 1 (-2)); VNum (NFin (-1) 0)].
+  Proof. vm_compute. reflexivity. Qed.
+  Example dom_ok : in_domain_b [TInteger (-3) 5 4%nat; TPerm [7; 8; 9]; TSubset [1; 2; 3; 4] 2%nat; TBinary 2%nat; TReal (NFin (-1) 0) (NFin 1 1)]
+                               [VInt 5; VList [9; 7; 8]; VList [4; 1]; VBits [true; false]; VNum (NFin 1 1)] = true.
+  Proof. vm_compute. reflexivity. Qed.
+  Example dom_bad_int : in_domain_b [TInteger (-3) 5 4%nat] [VInt 6] = false.
+  Proof. vm_compute. reflexivity. Qed.
+  Example dom_bad_perm : in_domain_b [TPerm [7; 8; 9]] [VList [7; 7; 9]] = false.
+  Proof. vm_compute. reflexivity. Qed.
+  Example dom_bad_nan : in_domain_b [TReal (NFin 0 0) (NFin 1 0)] [VNum NNaN] = false.
+  Proof. vm_compute. reflexivity. Qed.
+  Example perm_hyp_sat : Permutation (seq 0 (length [7; 8; 9])) [2; 0; 1]%nat.
+  Proof. simpl. apply Permutation_sym. apply (Permutation_cons_app [0%nat; 1%nat] [] 2%nat). simpl. apply Permutation_refl. Qed.
+  Example rand_perm_ex : rand_perm [7; 8; 9] [2; 0; 1]%nat = VList [9; 7; 8].
+  Proof. reflexivity. Qed.
+  Fixpoint all_bits (n : nat) : list (list bool) :=
+    match n with O => [[]] | S k => map (fun l => true :: l) (all_bits k) ++ map (fun l => false :: l) (all_bits k) end.
+  (* Integer(-3,5): all 16 Gray words decode into [-3,5] *)
+  Example integer_wrap_all :
+    forallb (fun g => match ev_decode (TInteger (-3) 5 4%nat) (VBits g) with
+                      | VInt z => (-3 <=? z) && (z <=? 5) | _ => false end) (all_bits 4) = true.
+  Proof. vm_compute. reflexivity. Qed.
+  Example mixed_rejected : default_variator [KReal; KBinary] = None /\ default_variator [KInteger; KBinary] = None /\
+                           default_variator [KBinary; KInteger] = Some Op_HUX_BitFlip.
+  Proof. repeat split. Qed.
+End Examples.
